@@ -44,7 +44,7 @@ func GenW(t *rapid.T) WPlan {
 
 	p.Ops = rapid.SliceOfN(rapid.Custom(func(t *rapid.T) WOp {
 		return WOp{
-			K:     rapid.SampledFrom([]string{"put", "put", "put", "remove", "get", "list", "ctx", "mutate-last"}).Draw(t, "k"),
+			K:     rapid.SampledFrom([]string{"put", "put", "put", "remove", "get", "list", "ctx", "ctx", "cancel-waiter", "mutate-last"}).Draw(t, "k"),
 			ID:    rapid.IntRange(0, 4).Draw(t, "id"),
 			Phase: rapid.SampledFrom([]int{0, 0, 0, 1}).Draw(t, "phase"),
 			Val:   rapid.IntRange(0, 99).Draw(t, "val"),
@@ -124,9 +124,10 @@ func runW(p WPlan) (v hk.Verdict) {
 	}
 
 	type waiter struct {
-		id  string
-		ctx context.Context //nolint:containedctx
-		exp bool
+		id     string
+		ctx    context.Context //nolint:containedctx
+		exp    bool
+		cancel context.CancelFunc // cancels this waiter's own parent context
 	}
 
 	var (
@@ -215,14 +216,39 @@ func runW(p WPlan) (v hk.Verdict) {
 				lastGot = l.Items[0]
 			}
 		case "ctx":
-			tc, err := c.ContextWithTeardown(ctx, resource.NewMetadata("n1", "TA", id, resource.VersionUndefined))
+			// every reader has its own parent context (e.g. its own reconcile)
+			pctx, pcancel := context.WithCancel(ctx)
+
+			tc, err := c.ContextWithTeardown(pctx, resource.NewMetadata("n1", "TA", id, resource.VersionUndefined))
 			if err != nil {
+				pcancel()
 				v.Failf("step %d: ContextWithTeardown error %v", i, err)
 
 				break
 			}
 
-			waiters = append(waiters, &waiter{id: id, ctx: tc, exp: m[id] == nil || m[id].Phase == 1})
+			waiters = append(waiters, &waiter{id: id, ctx: tc, exp: m[id] == nil || m[id].Phase == 1, cancel: pcancel})
+		case "cancel-waiter":
+			// one reader goes away (its parent is cancelled): its own context ends, the others must not be affected
+			if len(waiters) > 0 {
+				w := waiters[op.Val%len(waiters)]
+				w.cancel()
+				w.exp = true
+
+				others := 0
+
+				for _, o := range waiters {
+					if o != w && o.id == w.id && !o.exp {
+						others++
+					}
+				}
+
+				if others > 0 {
+					v.NonTrivial = true
+
+					v.Label("reader-left-while-others-wait")
+				}
+			}
 		case "mutate-last":
 			// a caller mutating what it got must not affect the cache (deep copies)
 			if lastGot != nil {
@@ -256,6 +282,10 @@ func runW(p WPlan) (v hk.Verdict) {
 		v.NonTrivial = true
 
 		v.Label("teardown-waiters")
+	}
+
+	for _, w := range waiters {
+		w.cancel()
 	}
 
 	return v
